@@ -88,6 +88,34 @@ def run(tier):
             if got[key].shape != want.shape or not all(SL.close(a, b, scale=mag * slack) for a, b in zip(got[key], want)):
                 ck.violation(f"{key}: true derivative with respect to the model parameters (chain rule through the Jacobian)",
                              {**ident, "want": want, "got": got[key]}, site=f"{cname}.{key}")
+        # the same likelihood from other accepted input forms (lists; column-vector uncertainties): same value and gradient
+        if ci % 5 == 0:
+            unc = sig if kind == "logistic" else scale
+            forms = [dict(y_data=[float(v) for v in y], unc=[float(v) for v in unc]), dict(y_data=y.reshape(-1, 1), unc=np.asarray(unc).reshape(-1, 1)),
+                     dict(y_data=y.copy(), unc=[[float(v)] for v in unc])]
+            f_ = forms[(ci // 5) % 3]
+            try:
+                L2 = type(L)(y_data=f_["y_data"], forward_model=model, forward_model_jacobian=model.jac,
+                             **({"gamma": f_["unc"]} if kind == "cauchy" else {"sigma": f_["unc"]}))
+            except Exception:
+                L2 = None       # a form the constructor rejects is not part of the property
+            try:
+                if L2 is None:
+                    raise StopIteration
+                with np.errstate(all="ignore"):
+                    v2, g2 = L2(theta), np.asarray(L2.gradient(theta), dtype=float)
+                same = np.ndim(v2) == 0 and float(v2) == got["value"] and g2.shape == got["grad"].shape and np.array_equal(g2, got["grad"])
+                if not (same or (np.ndim(v2) == 0 and SL.close(float(v2), SL.value(c["value"]), scale=SL.magnitude(c["value"]) * slack)
+                                 and g2.shape == got["grad"].shape and np.allclose(g2, got["grad"], rtol=1e-12, atol=1e-300))):
+                    ck.violation("value: sum over data of the log-density of the named distribution (normalised)",
+                                 {**ident, "input_form": {k: type(v).__name__ + str(np.shape(v)) for k, v in f_.items()}, "want": got["value"],
+                                  "got": np.asarray(v2).tolist(), "gradient_shape": list(g2.shape)}, site=f"{cname}.value:input-form")
+            except StopIteration:
+                pass
+            except Exception as ex:
+                ck.violation("likelihood built from an accepted input form raised when evaluated",
+                             {**ident, "input_form": {k: type(v).__name__ + str(np.shape(v)) for k, v in f_.items()}, "error": repr(ex)[:200]},
+                             site=f"{cname}.value:input-form")
         # the same data repeated Rep times: a large data set whose log-likelihood is Rep times the value above
         if ci % (7 if tier == "quick" else 23) == 0 and zmax < 1e3:
             R = int(c["rep"])
